@@ -1,5 +1,7 @@
 import YowsupVerif.Model.Conc
 import YowsupVerif.Gen.ConcCfg
+import YowsupVerif.Model.StaleWrite
+import YowsupVerif.Gen.StaleWriteCfg
 namespace Yow.Drv
 open Yow.Conc
 
@@ -15,6 +17,12 @@ def concStep : List String → String
     let sc := (sched.splitOn ",").filterMap (·.toNat?)
     let s := run (init Yow.Gen.concCfg w) sc
     s!"finished={finished s} framed={wellFramed s.wire 0} wire={" ".intercalate (s.wire.map concW)} left={",".intercalate (s.threads.map fun t => toString t.ops.length)}"
+  | ["stale", work, sched] =>
+    -- `stale <work: 2/-/1 (stanzas per sender, "-" = a connection loss + new login)> <sched>` with the regenerated configuration
+    let w := (work.splitOn "/").map fun t => if t == "-" then none else t.toNat?
+    let sc := (sched.splitOn ",").filterMap (·.toNat?)
+    let s := Yow.Stale.run (Yow.Stale.init Yow.Gen.staleWriteCfg w) sc
+    s!"atomic={Yow.Gen.staleWriteCfg.atomic} wire={" ".intercalate (s.wire.map fun p => s!"{p.1}:{p.2}")} left={",".intercalate (s.threads.map fun t => toString t.ops.length)}"
   | _ => "bad-op"
 
 end Yow.Drv
